@@ -194,6 +194,10 @@ func (fs *FS) OpenWriter(dir, name string) (types.WritableFile, error) {
 	if err != nil {
 		return nil, err
 	}
+	// Like a created file, a file opened for writing makes its directory entry durable on its
+	// first Sync: it may have been created by an earlier process lifetime that never synced it
+	// (the contract fs.OpenWriter implements since fix F16; C07 checks the real one).
+	h.created = true
 	return h, nil
 }
 
